@@ -155,6 +155,18 @@ class World:
                 C.set_global_colors_config(None)
 
 
+    def start_lines(self, kind: int, conf, no_color: bool):
+        """-> iterator over the lines of a rendering requested now (explicit configuration), or None for objects without lazy lines"""
+        kw: Dict[str, Any] = {"no_color": no_color, "colors_conf": conf}
+        if kind == 0:
+            return iter(self.table.ch_text(**kw))
+        if kind == 1:
+            return iter(self.pp(DATA, **kw))
+        if kind == 2:
+            return iter(self.ppj(DATA, **kw))
+        return None
+
+
 N_KINDS = 5
 
 
@@ -168,6 +180,19 @@ def _run_history(steps, c1: int, c2: int, adversarial_id: bool) -> None:
     try:
         world = World()
         log = []
+        pending = None      # a result requested at the previous step, only its first line consumed so far
+
+        def finish_pending(what_now):
+            nonlocal pending
+            if pending is None:
+                return
+            it, first, expected, step_then = pending
+            pending = None
+            got = "\n".join([first] + [str(l) for l in it])
+            if got != expected:
+                raise Violation(f"interleaved-lines :: {what_now}: the result of step {step_then} was requested again and consumed line by line, with the following step "
+                                f"requested after its first line; the lines differ from the same result consumed whole:\n{got[:300]}")
+
         for (kind, ci, no_color, via_global) in steps:
             conf = _mk_conf(ci, c1, c2)
             twin = _mk_conf(ci, c1, c2, no_color=True)
@@ -196,8 +221,19 @@ def _run_history(steps, c1: int, c2: int, adversarial_id: bool) -> None:
                 raise Violation(f"no-color-escape :: {what}: no_color rendering contains an escape character")
             if strip_sgr(whole) != plain:
                 raise Violation(f"layout :: {what}: colored rendering with sequences removed differs from the no_color rendering")
+            finish_pending(what)
+            # request this step's result again (explicit configuration), take its first line only; the rest is consumed after the next step
+            it = world.start_lines(kind, _mk_conf(ci, c1, c2), no_color)
+            if it is not None:
+                expected, _ = World().render(kind, _mk_conf(ci, c1, c2), no_color, False, _mk_conf(ci, c1, c2, no_color=True), None)
+                try:
+                    first = str(next(it))
+                    pending = (it, first, expected, (kind, ci, no_color, via_global))
+                except StopIteration:
+                    pending = None
             del conf, fresh_conf, fresh_world
             gc.collect()
+        finish_pending(f"history {log} (codes {c1}, {c2})")
     finally:
         if adversarial_id and "id" in P.__dict__:
             del P.id
